@@ -27,6 +27,7 @@ PIECES = [
     "#ATTACKS::y;",
     "#VERSION;",
     "#K:a\\:b;",
+    "#straße:\x85 x\u2028;",
     "#NOTES:a:b:c:d:e:f;",
     "#NOTES: a :b:c:d:e: f :g:h;",
     "#NOTES:a:b;",
